@@ -277,6 +277,7 @@ PROPS = {
             {"run": "TestC20A", "quick": 18000, "thorough": 800000, "shards_quick": 12, "shards_thorough": 16},
             {"run": "TestC20P", "quick": 6000, "thorough": 100000, "shards_quick": 4, "shards_thorough": 16},
             {"run": "TestC20Sweep", "quick": 1, "thorough": 1, "shards_quick": 12, "shards_thorough": 16},
+            {"run": "TestC20W", "quick": 160, "thorough": 4000, "shards_quick": 4, "shards_thorough": 8},
         ],
         "fuzz": [{"target": "FuzzC20", "seconds": 900}],
     },
